@@ -58,6 +58,21 @@ Section Registry.
     | (k', c) :: r => if ident_eqb k' k then Some c else lookup r k
     end.
 
+  (* __init_subclass__(error_id): cls.__handlers__[eid] = cls for the id, or for every id of a list;
+     the key is the id exactly as given, a later registration of the same key replaces the earlier one *)
+  Fixpoint set_key (reg : registry) (k : ident) (c : C) : registry :=
+    match reg with
+    | [] => [(k, c)]
+    | (k', c') :: r => if ident_eqb k' k then (k, c) :: r else (k', c') :: set_key r k c
+    end.
+
+  Definition register (reg : registry) (ids : list ident) (c : C) : registry :=
+    fold_left (fun r k => set_key r k c) ids reg.
+
+  (* a module's class statements, in order: (ids, class) *)
+  Definition build (decls : list (list ident * C)) : registry :=
+    fold_left (fun r d => register r (fst d) (snd d)) decls [].
+
   (* the for loop: first variant that is a key *)
   Fixpoint first_match (reg : registry) (vs : list ident) : option C :=
     match vs with
@@ -124,6 +139,14 @@ Definition entry_in (reg : registry string) (e : ident * string) : bool :=
   match lookup reg (fst e) with Some c => String.eqb c (snd e) | None => false end.
 Definition table_eqb (a b : registry string) : bool :=
   Nat.eqb (List.length a) (List.length b) && forallb (entry_in b) a && forallb (entry_in a) b.
+
+(* registration case: (class statements, registry dumped from __handlers__ afterwards, error list) ->
+   (dump equals the model's registry, exception raised under that registry) *)
+Definition run_decl_case (c : list (list ident * string) * registry string * list ident) : bool * raised string :=
+  let '(decls, dumped, errs) := c in
+  (table_eqb dumped (build decls), from_errors (build decls) errs).
+Definition decl_obs_eqb (a b : bool * raised string) : bool :=
+  Bool.eqb (fst a) (fst b) && raised_eqb (snd a) (snd b).
 
 (* case input: (index of a registry in [regs], error list) *)
 Definition run_case (regs : list (registry string)) (c : nat * list ident) : raised string :=
